@@ -47,7 +47,7 @@ def build(features=None, name='flagged'):
     DI = 'impl<C: Component, T: UnprotectedStorage<C>> DerefFlaggedStorage<C, T>'
     SAME_EMIT = 'final(self).emits() == old(self).emits()'
     u.fn(DF, [DH, 'fn clean'], props='C12 C04', impl_header=DI, key='DerefFlaggedStorage::clean',
-         requires=[E('mask', 'forall|i: Index| has.bview().contains(i) <==> old(self).storage.has(i)')],
+         requires=[E('mask', 'forall|i: Index| has_.bview().contains(i) <==> old(self).storage.has(i)')],
          ensures=[E('empty', 'forall|i: Index| !final(self).storage.has(i)', 'C04'), E('wf', 'old(self).storage.us_wf() ==> final(self).storage.us_wf()', 'C04'), E('events', 'final(self).channel@ == old(self).channel@ && ' + SAME_EMIT, 'C12')])
     u.fn(DF, [DH, 'fn get'], ret='r', props='C12 C04', impl_header=DI, key='DerefFlaggedStorage::get',
          requires=[E('has', 'self.storage.has(id)')],
